@@ -30,8 +30,10 @@ import c08_builder_h as BH  # noqa: E402
 import c08_gen as G  # noqa: E402
 import c08 as C08  # noqa: E402
 import c16_grammar as GR  # noqa: E402
+import syncused as SU  # noqa: E402
 
 MODULE = "UtapModel.Props.C16"
+SMODULE = "UtapModel.Props.C16Sync"
 GEN = os.path.join(core.LEAN_DIR, "UtapModel", "Gen", "C16Grammar.lean")
 FIELDS = {"guard": "guard", "sync": "sync", "assign": "assign", "prob": "prob"}
 XMLKIND = {"guard": "guard", "sync": "synchronisation", "assign": "assignment", "prob": "probability"}
@@ -282,8 +284,16 @@ def run(ctx):
     except GR.TranslateError as ex:
         # go on with the table of the last good run: the correspondence / oracle below looks for the failing input
         ctx.proof_broken("translate/c16_grammar.py", str(ex), "correspondence and oracle of this run found no failing input")
+    sync_tie = None
+    try:
+        stext, strans = SU.translate(core.REPO)
+        core.write_if_changed(os.path.join(core.VERIF, "lean", "UtapModel", "Gen", "SyncUsedTbl.lean"), stext)
+        cov["sync_style_transitions_translated"] = len(strans)
+    except SU.TranslateError as ex:
+        sync_tie = str(ex)         # the table of the last good run stays; the comparison below looks for the failing input
+        ctx.log("translate/syncused.py failed:", sync_tie)
     # 2 prove -------------------------------------------------------------------------------------------------------
-    ok, log = ctx.prove(MODULE, ["drv_c16"])
+    ok, log = ctx.prove([MODULE, SMODULE], ["drv_c16"])
     if not ok:
         ctx.log("proof broken:", core.failing_theorems(log) or log[-1500:])
     exe = build("asan")
@@ -469,6 +479,41 @@ def run(ctx):
                 if fk != key and ft["F"].get(fk) != fv:
                     xta_disturbed.append((cid, "XTA rendering: field %s changed: %s -> %s" % (fk, fv[:200], str(ft["F"].get(fk))[:200])))
                     break
+    # the model-wide synchronisation-style diagnostic (Props/C16Sync.lean): where the library reports it against the state machine read
+    # from visitEdge, for every case in which a synchronisation lost its direction and the static analysis ran
+    MIX = "$CSP_and_IO_synchronisations_cannot_be_mixed"
+    sync_cases = []
+    for cid, (si, lab, k, t2, xml) in meta.items():
+        fp = res.get(cid + ".p")
+        if k not in SEMANTIC or not fp or not fp["done"]:
+            continue
+        m2 = with_label(seeds[si], lab, t2)
+        seq = []
+        for ti, t in enumerate(m2["templates"]):
+            for ei, e in enumerate(t["edges"]):
+                if e["sync"] is not None:
+                    tx = e["sync"].rstrip()
+                    seq.append((label_path(m2, ti, "edge", ei, "sync"), "b" if tx.endswith("!") else "q" if tx.endswith("?") else "c"))
+        if cid in shifted:
+            continue
+        if seq:
+            sync_cases.append((cid, seq, sorted(p_ for p_, msg_ in fp["E"] if MIX in msg_)))
+    sync_dis = []
+    if sync_cases and os.path.exists(core.lean_exe("drv_c16")):
+        rc, out, err, _ = core.run_exe(core.lean_exe("drv_c16"), [], stdin_text="".join("sync %s\n" % " ".join(kd for _, kd in seq) for _, seq, _ in sync_cases))
+        lines = [l[5:] for l in out.split("\n") if l.startswith("SYNC ")]
+        for (cid, seq, got), bits in zip(sync_cases, lines):
+            want = sorted(p_ for (p_, _), b_ in zip(seq, bits) if b_ == "1")
+            if want != got:
+                sync_dis.append((cid, seq, got, want))
+    cov["sync_style_cases_compared"] = len(sync_cases)
+    cov["sync_style_disagreements"] = len(sync_dis)
+    if sync_dis:
+        cid, seq, got, want = sync_dis[0]
+        ctx.proof_broken("correspondence:sync-style", "synchronisation kinds %s: the library reports the CSP/IO mix on %s, the state machine read from visitEdge says %s"
+                         % (" ".join(kd for _, kd in seq), got, want), "input: %s" % meta[cid][4][-1500:])
+    elif sync_tie:
+        ctx.proof_broken("translate/syncused.py", sync_tie, "%d documents with a synchronisation that lost its direction behave as the last good table says" % len(sync_cases))
     cov["xta_label_fault_cases"] = n_xta
     cov["correspondence_cases"] = n_cmp
     cov["faults_behind_an_empty_label"] = stats_shifted[0]
